@@ -112,7 +112,7 @@ func c14vetted(r *rand.Rand, g *gram.Grammar, nt int, n int) []string {
 		env := gram.NewEnv(in)
 		gd := gram.NewGuard(env.Base)
 		gd.MaxEvents, gd.MaxCalls = 20000, 40000
-		b := gram.Build(g, &gram.Hooks{Inside: gd.Inside, Outside: gd.Outside})
+		b := gram.Build(g, &gram.Hooks{Budget: gd.LeafTick, Inside: gd.Inside, Outside: gd.Outside})
 		if o := gram.Run(env, b.NTs[nt], 0); o.Budget == "" && o.Bound == nil && o.Panic == "" {
 			ins = append(ins, in)
 		}
